@@ -21,7 +21,33 @@ class IterSpec:
         self.start = start          # z3 Int: first index (shared iterator resumed)
 
 
+def loop_ordinal(unit, node):
+    """ordinal of a for/while statement among the loops of its function, in source order"""
+    import ast as _ast
+    loops = []
+    stack = list(reversed(unit.node.body))
+    while stack:
+        n = stack.pop()
+        if isinstance(n, (_ast.For, _ast.While)):
+            loops.append(n)
+        if isinstance(n, (_ast.FunctionDef, _ast.Lambda, _ast.ClassDef)):
+            continue
+        kids = [c for c in _ast.iter_child_nodes(n) if isinstance(c, _ast.stmt) or isinstance(c, _ast.ExceptHandler)]
+        stack.extend(reversed(kids))
+    loops.sort(key=lambda x: (x.lineno, x.col_offset))
+    for i, l in enumerate(loops):
+        if l is node:
+            return i
+    return None
+
+
 def run_for(I, node, st, spec):
+    invs = I.ctx.config.get("loop_invs")
+    if invs and st.unit is not None:
+        o = loop_ordinal(st.unit, node)
+        inv = invs.get((st.unit.key, o))
+        if inv is not None and spec.concrete is None and spec.seq is None:
+            return _with_invariant(I, node, st, spec, inv, o)
     if spec.concrete is not None:
         return _unroll(I, node, st, spec.concrete)
     if spec.seq is not None:
@@ -465,3 +491,158 @@ def eval_collect(I, st, gen_node, kind="list"):
 
 def eval_listcomp(I, node, st):
     return eval_collect(I, st, node, "list")
+
+
+# ---------------------------------------------------------------------------
+# loops with an explicit inductive invariant (side-car contract, keyed by loop ordinal)
+
+class LoopInv:
+    """at(I, st, k, spec) -> {"env": {name: value}, "lists": {name: parts}, "formula": BoolRef}
+    describes the loop-carried state at the start of iteration k (k an Int term) and a pure formula."""
+
+    def at(self, I, st, k, spec):
+        raise NotImplementedError
+
+
+def value_equal(a, b):
+    """z3 formula: the two values are equal (None if not comparable -> out of subset)"""
+    from .interp import to_sv
+    if isinstance(a, SB) and isinstance(b, SB):
+        return a.f == b.f
+    if isinstance(a, SInt) and isinstance(b, SInt):
+        return a.t == b.t
+    if isinstance(a, SStr) and isinstance(b, SStr):
+        return a.t == b.t
+    if isinstance(a, (SV, SInt, SStr, SB)) and isinstance(b, (SV, SInt, SStr, SB)):
+        return to_sv(a).t == to_sv(b).t
+    if isinstance(a, PyTuple) and isinstance(b, PyTuple) and len(a.items) == len(b.items):
+        fs = [value_equal(x, y) for x, y in zip(a.items, b.items)]
+        if any(f is None for f in fs):
+            return None
+        return z3.And(fs) if fs else z3.BoolVal(True)
+    return None
+
+
+def _flat(parts):
+    out = []
+    for p in parts:
+        if isinstance(p, Nil):
+            continue
+        if isinstance(p, Cat):
+            out.extend(_flat(p.parts))
+        else:
+            out.append(p)
+    return out
+
+
+def seq_equal(pa, pb):
+    """-> list of z3 facts whose conjunction implies the two part lists denote the same sequence.
+    Supports identical shapes and the step  For(i<k, f) ++ f(k)  ==  For(i<k+1, f)."""
+    a, b = _flat(pa), _flat(pb)
+    facts = []
+    # peel: if b ends with For(i, hi, body) and a ends with For(i', hi', body'), X with hi == hi'+1
+    if len(a) == len(b) + 1 and b and isinstance(b[-1], For) and isinstance(a[-2], For):
+        fb, fa = b[-1], a[-2]
+        step = z3.simplify(fb.n - fa.n)
+        if z3.is_int_value(step) and step.as_long() == 1:
+            last = subst(fb.body, [(fb.ivar, fa.n)])
+            b = b[:-1] + [For(fb.ivar, fa.n, fb.body, fb.unordered, fb.lo), last]
+            facts.append(fa.n >= fb.lo)
+    if not a and b and all(isinstance(x, For) for x in b):
+        return facts + [z3.simplify(x.n <= x.lo) for x in b]
+    if not b and a and all(isinstance(x, For) for x in a):
+        return facts + [z3.simplify(x.n <= x.lo) for x in a]
+    if len(a) != len(b):
+        raise OutOfSubset("sequence shapes differ (%d vs %d parts)" % (len(a), len(b)))
+    for x, y in zip(a, b):
+        facts.extend(_seq_item_equal(x, y))
+    return facts
+
+
+def _seq_item_equal(x, y):
+    if isinstance(x, One) and isinstance(y, One):
+        f = value_equal(x.val, y.val)
+        if f is None:
+            raise OutOfSubset("cannot compare sequence elements %r / %r" % (x.val, y.val))
+        return [f]
+    if isinstance(x, For) and isinstance(y, For):
+        k = smt.fresh("se", smt.I)
+        bx = subst(x.body, [(x.ivar, k)])
+        by = subst(y.body, [(y.ivar, k)])
+        inner = _seq_item_equal(bx, by) if not isinstance(bx, Cat) else seq_equal(bx.parts, by.parts if isinstance(by, Cat) else (by,))
+        return [x.n == y.n, x.lo == y.lo, z3.ForAll([k], z3.Implies(z3.And(k >= x.lo, k < x.n), z3.And(inner) if inner else z3.BoolVal(True)))]
+    if isinstance(x, Nil) and isinstance(y, Nil):
+        return []
+    raise OutOfSubset("sequence items of different shape: %r / %r" % (type(x).__name__, type(y).__name__))
+
+
+def _install(I, s, desc):
+    for name, v in desc.get("env", {}).items():
+        s.env[name] = v
+    for name, parts in desc.get("lists", {}).items():
+        lo = s.env[name]
+        if not isinstance(lo, ListObj):
+            raise OutOfSubset("invariant names %s as a list" % name)
+        s.heap[lo.oid] = dict(s.heap[lo.oid], parts=tuple(parts), items=None)
+
+
+def _inv_obligations(I, s, desc, label):
+    from contracts.core import Obligation      # engine-level obligation record
+    obs = []
+    for name, v in desc.get("env", {}).items():
+        cur = s.env.get(name)
+        f = value_equal(cur, v)
+        if f is None:
+            raise OutOfSubset("cannot compare loop-carried %s" % name)
+        obs.append(Obligation("%s/L/%s:%s" % (s.unit.key, label, name), "L", s.pc, f, note="loop invariant: value of %s" % name))
+    for name, parts in desc.get("lists", {}).items():
+        lo = s.env[name]
+        facts = seq_equal(s.heap[lo.oid]["parts"], parts)
+        obs.append(Obligation("%s/L/%s:%s" % (s.unit.key, label, name), "L", s.pc, z3.And(facts) if facts else z3.BoolVal(True),
+                              note="loop invariant: content of list %s" % name))
+    if desc.get("formula") is not None:
+        obs.append(Obligation("%s/L/%s:formula" % (s.unit.key, label), "L", s.pc, desc["formula"], note="loop invariant formula"))
+    I.ctx.obligations.extend(obs)
+
+
+def _with_invariant(I, node, st, spec, inv, ordinal):
+    ctx = I.ctx
+    lo = spec.start if spec.start is not None else z3.IntVal(0)
+    n = spec.n
+    label = "loop%d" % ordinal
+    # 1. initialisation
+    _inv_obligations(I, st, inv.at(I, st, lo, spec), label + ".init")
+    results = []
+    # 2. preservation / exits from an arbitrary iteration k
+    k = smt.fresh("k", smt.I)
+    s = st.fork()
+    dk = inv.at(I, s, k, spec)
+    _install(I, s, dk)
+    s.pc.append(z3.And(k >= lo, k < n))
+    if dk.get("formula") is not None:
+        s.pc.append(dk["formula"])
+    if ctx.feasible(s.pc):
+        for s1, c1 in I.assign(node.target, spec.elem(k), s):
+            outs = [(s1, c1)] if c1[0] != "next" else I.exec_block(node.body, s1)
+            for s2, ctl in outs:
+                if ctl[0] in ("next", "continue"):
+                    _inv_obligations(I, s2, inv.at(I, s2, k + 1, spec), label + ".preserve")
+                elif ctl[0] == "break":
+                    results.append((s2, ("next", None)))
+                else:
+                    results.append((s2, ctl))
+    # 3. after the loop
+    sA = st.fork()
+    dn = inv.at(I, sA, n, spec)
+    _install(I, sA, dn)
+    sA.pc.append(n >= lo)
+    if dn.get("formula") is not None:
+        sA.pc.append(dn["formula"])
+    for t in _target_names(node.target):
+        sA.env[t] = Undefined(t)
+    if ctx.feasible(sA.pc):
+        if node.orelse:
+            results.extend(I.exec_block(node.orelse, sA))
+        else:
+            results.append((sA, ("next", None)))
+    return results
